@@ -42,6 +42,14 @@ def tasks(tier, seed):
         if not q and alg == 'lanczos':
             # (the complex general-map Arnoldi relation at n = 2, numiter = 2 does not finish within 15 min: not part of the claim)
             ts.append(dict(name=f'{alg}_rel_n2_m2_cplx', kind='rel', alg=alg, n=2, m=2, cplx=True, cut=5))
+        if not q:
+            for m in (1, 2, 3, 4, 5):
+                ts.append(dict(name=f'{alg}_shapes_n4_m{m}', kind='shapes', alg=alg, n=4, m=m, cplx=False, cut=5))
+            # (the relation at n = 3, numiter = 3 and the Arnoldi relation at n = 4, numiter = 2 do not finish within 10 min: not part of the claim)
+            for m in ((1, 2) if alg == 'lanczos' else (1,)):
+                ts.append(dict(name=f'{alg}_rel_n4_m{m}', kind='rel', alg=alg, n=4, m=m, cplx=False, cut=5))
+            ts.append(dict(name=f'{alg}_rel_n1_m1_cplx', kind='rel', alg=alg, n=1, m=1, cplx=True, cut=5))
+            ts.append(dict(name=f'{alg}_rel_n2_m1_cplx', kind='rel', alg=alg, n=2, m=1, cplx=True, cut=5))
     for fn in ('eigh', 'expm_h', 'expm_g'):
         for n in (1, 2, 3):
             for m in (1, 2, 3) if q else (1, 2, 3, 4):
